@@ -267,6 +267,13 @@ class NpInterp:
         if len(params) != len(args):
             raise Uninterpretable("arity")
         for p, a in zip(params, args):
+            if p.kind == "list" and isinstance(a, list) and len(a) == len(p.operands):
+                for item, v in zip(p.operands, a):
+                    if item.kind != "symbol":
+                        raise Uninterpretable("non-symbol list item")
+                    self.env[id(item)] = self.dtype_of(item)(v)
+                self.env[id(p)] = [self.env[id(item)] for item in p.operands]
+                continue
             if p.kind != "symbol":
                 raise Uninterpretable("non-symbol parameter")
             self.env[id(p)] = self.dtype_of(p)(a)
